@@ -345,6 +345,8 @@ def r4_past_guard(ctx, cfg='A'):
         ctx.orderings += 1
         outs = set()
         for path, outcome, decs in paths:
+            if outcome == 'unreachable':
+                continue   # the `unreachable` arm rustc emits for an exhaustive match is not an execution
             atoms = [a for _, a in path_atoms(f, path, decs)]
             if all(atom_truth(a, ranks) in (True, None) for a in atoms):
                 outs.add('panic' if outcome == 'panic' else 'accept')
